@@ -1606,7 +1606,11 @@ class Message(ABC):
                         output[cased_name] = _Duration.delta_to_json(value)
                 elif meta.wraps:
                     if value is not None or include_default_values:
-                        output[cased_name] = _dump_json_value(meta.wraps, value)
+                        output[cased_name] = (
+                            [_dump_json_value(meta.wraps, i) for i in value]
+                            if field_is_repeated
+                            else _dump_json_value(meta.wraps, value)
+                        )
                 elif field_is_repeated:
                     # Convert each item.
                     cls = self._betterproto.cls_by_field[field_name]
@@ -1732,7 +1736,11 @@ class Message(ABC):
                         else sub_cls.from_dict(value)
                     )
                 else:
-                    value = _parse_json_value(meta.wraps, value)
+                    value = (
+                        [_parse_json_value(meta.wraps, item) for item in value]
+                        if isinstance(value, list)
+                        else _parse_json_value(meta.wraps, value)
+                    )
             elif meta.map_types:
                 key_type, value_type = meta.map_types
                 sub_cls = cls._betterproto.cls_by_field[f"{field_name}.value"]
